@@ -277,9 +277,43 @@ class Inliner:
                 out[f.name] = f
         return out
 
+    def inline_properties(self, cls, helpers):
+        """New `@property` methods whose body is a single `return expr`: every read `self.<name>` is replaced by expr."""
+        props = {}
+        for name, f in helpers.items():
+            if any(isinstance(d, ast.Name) and d.id == "property" for d in f.decorator_list) and len(f.args.args) == 1:
+                shape = helper_shape(f)
+                if shape is not None and not shape[0] and shape[1] is not None:
+                    props[name] = shape[1]
+        if not props:
+            return
+        me = self
+
+        class Sub(ast.NodeTransformer):
+            def visit_Attribute(self, n):
+                self.generic_visit(n)
+                if isinstance(n.ctx, ast.Load) and isinstance(n.value, ast.Name) and n.value.id == "self" and n.attr in props:
+                    me.inlined.append("%s -> (property)" % n.attr)
+                    return ast.copy_location(copy.deepcopy(props[n.attr]), n)
+                return n
+        for f in cls.body:
+            if isinstance(f, ast.FunctionDef) and f.name not in props:
+                Sub().visit(f)
+                ast.fix_missing_locations(f)
+        cls.body = [f for f in cls.body if not (isinstance(f, ast.FunctionDef) and f.name in props)]
+
     def run(self):
         for node in self.tree.body:
             if isinstance(node, ast.ClassDef):
+                helpers = self.helpers_of(node)
+                for hf in helpers.values():
+                    # temporaries of a new helper are new by definition: fold them so that more helpers are single expressions
+                    try:
+                        split_tuple_assigns(hf)
+                        substitute_new_temps(hf, set(a.arg for a in hf.args.args))
+                    except RecursionError:
+                        pass
+                self.inline_properties(node, helpers)
                 helpers = self.helpers_of(node)
                 for _ in range(3):
                     changed = False
@@ -1240,12 +1274,21 @@ def rename_result_temps(fn):
 
 
 def expand_return_ifexp(fn):
-    """`return A if c else B` -> `if c: return A` / `else: return B`."""
+    """`return A if c else B` -> `if c: return A` / `else: return B`; likewise `x = A if c else B` for a plain name x."""
     k = 0
     for b in _blocks(fn):
         i = 0
         while i < len(b):
             s = b[i]
+            if isinstance(s, ast.Assign) and len(s.targets) == 1 and isinstance(s.targets[0], ast.Name) and isinstance(s.value, ast.IfExp):
+                v = s.value
+                new = ast.If(test=v.test, body=[ast.Assign(targets=[ast.Name(id=s.targets[0].id, ctx=ast.Store())], value=v.body)],
+                             orelse=[ast.Assign(targets=[ast.Name(id=s.targets[0].id, ctx=ast.Store())], value=v.orelse)])
+                ast.copy_location(new, s)
+                ast.fix_missing_locations(new)
+                b[i] = new
+                k += 1
+                continue
             if isinstance(s, ast.Return) and isinstance(s.value, ast.IfExp):
                 v = s.value
                 new = ast.If(test=v.test, body=[ast.Return(value=v.body)], orelse=[ast.Return(value=v.orelse)])
